@@ -20,15 +20,12 @@ Qed.
 Print Assumptions C13_dead_reckoning_unit.
 
 (* dropout_step_safe, Madgwick(gain=0.4): null acc (IMU; MARG with any / null mag): never an exception, output =
-   dead-reckoned q, and the filter's gains (gain, gain_imu, gain_marg) read back after the call are the configured ones
-   (a dropout does not change the configuration).
-   (With a null magnetometer updateMARG delegates to updateIMU at the filter's own Dt = 1/100.) *)
+   the dead-reckoned q at the caller's dt (a null magnetometer delegates to updateIMU with that dt), and the filter's gains
+   (gain, gain_imu, gain_marg) read back after the call are the configured ones: a dropout does not change the configuration *)
 Theorem C13_dropout_step_safe_madgwick : forall w x y z g0 g1 g2 m0 m1 m2 dt, sq4 w x y z = 1 ->
   C13_mad_imu_a0_R w x y z g0 g1 g2 dt = Val (dr w x y z g0 g1 g2 dt ++ [2/5; 33/1000; 41/1000]) /\
-  (exists h, (h = dt \/ h = 1/100) /\
-     C13_mad_marg_a0_R w x y z g0 g1 g2 m0 m1 m2 dt = Val (dr w x y z g0 g1 g2 h ++ [2/5; 33/1000; 41/1000])) /\
-  (C13_mad_marg_am0_R w x y z g0 g1 g2 dt = Val (dr w x y z g0 g1 g2 (1/100) ++ [2/5; 33/1000; 41/1000]) \/
-   (g0 = 0 /\ g1 = 0 /\ g2 = 0 /\ C13_mad_marg_am0_R w x y z g0 g1 g2 dt = Val ([w;x;y;z] ++ [2/5; 33/1000; 41/1000]))).
+  C13_mad_marg_a0_R w x y z g0 g1 g2 m0 m1 m2 dt = Val (dr w x y z g0 g1 g2 dt ++ [2/5; 33/1000; 41/1000]) /\
+  C13_mad_marg_am0_R w x y z g0 g1 g2 dt = Val (dr w x y z g0 g1 g2 dt ++ [2/5; 33/1000; 41/1000]).
 Proof.
   intros w x y z g0 g1 g2 m0 m1 m2 dt H. split; [exact (mad_imu_a0 _ _ _ _ _ _ _ _ H)|].
   split; [exact (mad_marg_a0 _ _ _ _ _ _ _ _ _ _ _ H)|exact (mad_marg_am0 _ _ _ _ _ _ _ _ H)].
